@@ -955,6 +955,7 @@ mcSamples == %s
  Samples <- mcSamples
 INIT Init
 NEXT Next
+INVARIANT EmitExpect
 CHECK_DEADLOCK FALSE
 """
     mem = c["n"] + 1 if kind in ("ROC", "ER", "MFI") else c["n"]
